@@ -126,6 +126,7 @@ class _Loader(importlib.abc.Loader):
         from symx.shims import fs_shim, builtins_shim
         g["open"] = fs_shim.open_
         g["bytearray"] = builtins_shim.bytearray_
+        g["isinstance"] = builtins_shim.isinstance_
         if module.__name__ == "traph.helpers":
             from symx import symstr
             g["int"] = symstr.int_
